@@ -12,8 +12,10 @@ from harness.simcmp import params_fnodes
 PROPERTY = "C26"
 TECHNIQUE = "property-based testing; valid time-triggered plans (filtered by the reference temporal semantics) converted to STN and back, consistency / pinning / reference re-validation"
 RULE = (
-    "Temporal and instantaneous problems from the C05 grammar with plans of 1-4 timed instances on a half-integer grid; only "
-    "plans the reference temporal semantics accepts are used (yield measured).  Oracle: convert_to(STN_PLAN) does not raise "
+    "Temporal and instantaneous problems from the C05 grammar with plans of 1-4 timed instances on a half-integer grid; goals are "
+    "dropped and a plan is grown step by step, keeping a generated step only while the reference temporal semantics still "
+    "accepts the plan (each step list is tried twice, the second time two time units later, so causally dependent and "
+    "overlapping actions are common).  Oracle: convert_to(STN_PLAN) does not raise "
     "and is consistent; the STN rebuilt from get_constraints() plus pinning constraints (every start at its original time, "
     "every duration fixed, written in the converter's own (lower, upper, node) form) is still consistent; converting back "
     "gives the same action instances and a plan the reference semantics accepts.  Non-trivial = valid plan with >= 2 actions "
@@ -28,19 +30,31 @@ def check(ctx, case):
     from unified_planning.plans import ActionInstance, PlanKind, TimeTriggeredPlan
     from unified_planning.plans.stn_plan import STNPlan, STNPlanNode
 
-    b = build(case["problem"])
+    # goals play no role in the conversions: without them far more generated schedules are valid plans
+    b = build(dict(case["problem"], goals=[]))
     problem, em = b.problem, b.em
     ref = RefTT(problem)
     insts = [(a, args) for a in problem.actions for args in ref.sim.instances(a)]
     if not insts:
         return
     for steps in case["plans"]:
+        # constructive: a generated step is kept only if the plan stays valid with it (so plans with several
+        # causally related, overlapping actions are common instead of being filtered away as a whole)
         plan = []
-        for st_ in steps:
+        for st_ in steps + [dict(x, start=str(Fraction(str(x["start"])) + 2)) for x in steps]:
             a, args = insts[(st_["a"] * 7 + st_["args"]) % len(insts)]
             start = Fraction(st_["start"])
             dur = duration_for(b, ref, a, args, st_) if isinstance(a, DurativeAction) else None
-            plan.append((start, a, args, dur))
+            cand = plan + [(start, a, args, dur)]
+            try:
+                okc, _ = ref.validate(cand)
+            except Abstain:
+                okc = False
+            if okc:
+                plan = cand
+        if not plan:
+            ctx.cls("generated-invalid")
+            continue
         desc = [[str(s), a.name, list(map(str, args)), None if d is None else str(d)] for s, a, args, d in plan]
         try:
             valid, why = ref.validate(plan)
@@ -91,8 +105,13 @@ def check(ctx, case):
             ctx.abstain("back:" + ab.reason)
             continue
         if not valid2:
+            trig = ""
+            if why2 == "duration" and _duration_reads_written_fluent(problem):
+                # the converters derive orderings from conditions and effects only, not from the fluents a duration
+                # bound reads (known finding)
+                trig = ":duration-reads-written-fluent"
             raise Violation(
-                f"back-converted-plan-invalid:{why2}",
+                f"back-converted-plan-invalid:{why2}{trig}",
                 f"valid plan {desc} -> STN -> {desc2}, which the reference semantics rejects ({why2})",
                 case,
                 {"plan": desc, "back": desc2},
@@ -108,6 +127,22 @@ def check(ctx, case):
             ctx.cls("nontrivial")
 
 
+def _duration_reads_written_fluent(problem):
+    from unified_planning.model import DurativeAction
+
+    written = set()
+    for a in problem.actions:
+        effs = [e for l in a.effects.values() for e in l] if isinstance(a, DurativeAction) else list(a.effects)
+        written |= {e.fluent.fluent().name for e in effs}
+    fve = problem.environment.free_vars_extractor
+    for a in problem.actions:
+        if isinstance(a, DurativeAction):
+            for bnd in (a.duration.lower, a.duration.upper):
+                if any(f.fluent().name in written for f in fve.get(bnd)):
+                    return True
+    return False
+
+
 def spec_hash(spec):
     from harness.core import case_hash
 
@@ -121,7 +156,7 @@ def shard(ctx):
         ctx.evaluations -= 1
         check(ctx, case)
 
-    ctx.run_hypothesis(cases(), oracle, ctx.scale(3000, 60000))
+    ctx.run_hypothesis(cases(), oracle, ctx.scale(15000, 120000))
 
 
 def replay(ctx, case):
